@@ -70,7 +70,7 @@ func analyseWatch(c *Ctx, rule string) *watchShape {
 		return nil
 	}
 	for _, h := range backEdgeHeaders(fn) {
-		if h.Dominates(s.sel.Block()) || h == s.sel.Block() {
+		if ir.Dominates(h, s.sel.Block()) || h == s.sel.Block() {
 			s.header = h
 		}
 	}
